@@ -324,6 +324,7 @@ impl Check for C14Check {
             Phase::exhaustive("literal-pairs", { let n = literal_pool().len() as u64; n * n * 2 }).with_chunk(64),
             Phase::exhaustive("integers-beyond-32-bits", (BIG_INTEGERS.len() * 6) as u64).with_chunk(8),
             Phase::exhaustive("size-sweep", (crate::model::pipeline::SIZE_SWEEP.len() * 8) as u64).with_chunk(4),
+            Phase::exhaustive("latin1-byte-literals", 128 * 3).with_chunk(16),
         ]
     }
     fn run(&self, _tier: Tier, phase: usize, input: &Input, ctx: &mut CaseCtx) {
@@ -440,6 +441,18 @@ impl Check for C14Check {
                         }
                     }
                 }
+            }
+            (8, Input::Index(i)) => {
+                // a quoted byte list lists one byte per character: the characters U+0080..U+00FF spell the bytes 0x80..0xFF
+                // (like the numeric form with 233 between triple quotes); alone, between ASCII characters, twice in a row
+                let b = 0x80u8 + (*i / 3) as u8;
+                let c = char::from(b);
+                let (spelled, bytes) = match *i % 3 {
+                    0 => (format!("'{}'", c), vec![b]),
+                    1 => (format!("'a{}z'", c), vec![97, b, 122]),
+                    _ => (format!("'{}{}'", c, c), vec![b, b]),
+                };
+                self.judge("bytes", &spelled, &V::Bytes(bytes), None, None, true, ctx);
             }
             (7, Input::Index(i)) => {
                 // literals of every length around the usual thresholds: texts (ASCII, multi-byte, escaped), byte lists in both
